@@ -2,8 +2,8 @@ SPECIFICATION GSpec
 CONSTANTS
   Tables = {"gap3"}
   Shapes = {"rw", "w"}
-  Modes = {"echo", "none", "clamp", "raise"}
-  Setups = {"rw-echo", "w-clamp", "rw-raise"}
+  Modes = {"echo", "none", "clamp", "raise", "crash"}
+  Setups = {"rw-echo", "w-clamp", "rw-crash"}
   Xs = {0, 1, 2, 3, 4, 5, 6, 7, 8}
   XW = {3}
   WPos = {2}
